@@ -290,11 +290,12 @@ def run_property(prop_id: str, tier: str, seed: int, jobs: int, budget_s: float 
                 cur["count"] += v["count"]
 
     # ---- known findings
-    known = {
-        f["signature"]: f
-        for f in load_known_findings()
-        if f["property"] == prop_id and f.get("status") == "known"
-    }
+    known = {}
+    for f in load_known_findings():
+        if f["property"] == prop_id and f.get("status") == "known":
+            # one finding may surface under several exact signatures (listed explicitly, never patterns)
+            for sig in [f["signature"]] + list(f.get("also_seen_as", [])):
+                known[sig] = f
     new_violations, known_seen = [], []
     for sig, v in violations.items():
         (known_seen if sig in known else new_violations).append(v)
